@@ -218,7 +218,7 @@ class TaskSpec(native_v1_specs.Spec):
                     rendered_var_value = expr_base.evaluate(default_var_value, rolling_ctx)
                     rolling_ctx[var_name] = rendered_var_value
                     new_ctx[var_name] = rendered_var_value
-                except exc.ExpressionEvaluationException as e:
+                except Exception as e:
                     errors.append(e)
 
         out_ctx = dict_util.merge_dicts(in_ctx, new_ctx, overwrite=True)
@@ -667,7 +667,7 @@ class WorkflowSpec(native_v1_specs.Spec):
             try:
                 rendered_input_value = expr_base.evaluate(runtime_input_value, rolling_ctx)
                 rolling_ctx[input_name] = rendered_input_value
-            except exc.ExpressionEvaluationException as e:
+            except Exception as e:
                 errors.append(e)
 
         return rolling_ctx, errors
@@ -685,7 +685,7 @@ class WorkflowSpec(native_v1_specs.Spec):
                 rendered_var_value = expr_base.evaluate(default_var_value, rolling_ctx)
                 rolling_ctx[var_name] = rendered_var_value
                 rendered_vars[var_name] = rendered_var_value
-            except exc.ExpressionEvaluationException as e:
+            except Exception as e:
                 errors.append(e)
 
         return rendered_vars, errors
@@ -704,7 +704,7 @@ class WorkflowSpec(native_v1_specs.Spec):
                 rendered_output_value = expr_base.evaluate(default_output_value, rolling_ctx)
                 rolling_ctx[output_name] = rendered_output_value
                 rendered_outputs[output_name] = rendered_output_value
-            except exc.ExpressionEvaluationException as e:
+            except Exception as e:
                 errors.append(e)
 
         return rendered_outputs, errors
